@@ -108,7 +108,12 @@ Section Prims.
         * cbn [fst]. eapply star_snoc; [exact S1|apply P_put_i].
         * eapply star_trans; [|apply mark_done_star]. eapply star_trans; [exact S1|].
           eapply star_trans; [apply note_cancel_m_star|]. apply star_one. unfold fin_i. apply P_drop_i.
-    - destruct (find_u e n) as [c|] eqn:Ef; [|apply star_refl].
+    - assert (U : star e (fst (cancel_unstarted e m r))).
+      { unfold cancel_unstarted. pose proof (mark_done_star e m r) as K. destruct (mark_done e m r) as [e1 m1]. cbn [fst] in K.
+        destruct (mark_cancelled_raises (tk e1 m1) r); cbn [fst]; [exact K|].
+        eapply star_trans; [exact K|apply note_cancel_m_star]. }
+      destruct (find_u e n) as [c|] eqn:Ef; [|exact U].
+      destruct (Nat.eqb (c_id c) (r_id r)); [|exact U]. clear U.
       pose proof (find_u_name _ _ _ Ef) as Hn.
       destruct (c_complete c).
       + eapply star_trans; [|apply mark_done_star]. apply (fin_u_star e c c); [now rewrite Hn|reflexivity].
